@@ -5,7 +5,7 @@ import ast
 from typing import Dict, List, Optional, Tuple
 
 from sa.core.common import AnalysisError
-from sa.core.pyfacts import Func, Repo, call_name, kwarg, src, walk_no_nested
+from sa.core.pyfacts import Func, Repo, arg, call_name, const_str, kwarg, src, walk_no_nested
 from sa.core.scope_typestate import Rec, ScopeInterp, St
 
 # Frozen classification of the handlers of query_ast_visitor by what they do to the emission cursor
@@ -402,3 +402,496 @@ def check_core_scope_semantics(col, rule: str, repo: Repo):
     ok = sorted(src(c).replace(" ", "") for c in calls) == ["set_scope(e_rep.scope(),scope_fill)", "set_scope(scope,scope_fill)"]
     col.add(rule, "query_ast_visitor.code_fill_ttree", "placement-uses-the-value's-own-scope", ok,
             f"placements found: {[src(c) for c in calls]}", cf.loc)
+
+
+# ---------------------------------------------------------------------------------------------------------------
+# executor._copy_template_file: <env>.get_template(<file>) rendered with <info>, written to <dir>/<file>, replacing
+# whatever is there.  Accepted write forms (each truncates):  .stream(info).dump(<path>) (jinja2 opens "wb"),
+# .dump(fp) / fp.write(.render(info)) with fp from open(<path>, "w..."), Path.open("w..."), or os.fdopen(os.open(<path>,
+# flags incl. O_TRUNC)); <path>.write_text(.render(info)).
+def check_copy_template(col, rule: str, repo, details=("renders-that-template-into-that-file", "output-file-replaced-not-overlaid", None)):
+    ex = repo.find_class("executor", hint="common.executor")
+    cp = ex.methods.get("_copy_template_file")
+    if cp is None:
+        raise AnalysisError("executor._copy_template_file not found")
+    prm = [a.arg for a in cp.node.args.args]
+    if len(prm) != 5:
+        raise AnalysisError(f"_copy_template_file parameters are {prm}: expected (self, env, info, template_file, final_dir)")
+    _, env, info, tf, fdir = prm
+    fn = cp.node
+    sp = lambda n: src(n).replace(" ", "").replace("\n", "")
+
+    def is_path(e, depth=0):
+        e = strip_cast(e) if isinstance(e, ast.Call) and call_name(e) == "str" else e
+        if isinstance(e, ast.Call) and call_name(e) == "str" and e.args:
+            e = e.args[0]
+        if isinstance(e, ast.Name) and depth < 4:
+            d = defs_of(fn, e.id)
+            return len(d) == 1 and is_path(d[0], depth + 1)
+        return sp(e) in (f"{fdir}/{tf}", f"({fdir}/{tf})", f"os.path.join({fdir},{tf})", f"os.path.join(str({fdir}),{tf})", f"Path({fdir})/{tf}")
+
+    gets = [c for c in ast.walk(fn) if isinstance(c, ast.Call) and call_name(c) == "get_template"]
+    tmpl_ok = len(gets) == 1 and src(gets[0].func.value) == env and len(gets[0].args) == 1 and src(gets[0].args[0]) == tf
+    rend = [c for c in ast.walk(fn) if isinstance(c, ast.Call) and call_name(c) in ("stream", "render", "generate")]
+    rend_ok = len(rend) == 1 and [src(a) for a in rend[0].args] == [info] and not rend[0].keywords
+    caches = [n for n in ast.walk(fn) if isinstance(n, ast.Subscript)] + [c for c in ast.walk(fn) if isinstance(c, ast.Call) and call_name(c) in ("get", "setdefault", "lru_cache", "cache")]
+
+    def enc_of(call, pos_enc, default):
+        """(encoding, errors) of an open/dump call; default encoding None = locale dependent"""
+        e = arg(call, pos_enc, "encoding")
+        r = kwarg(call, "errors")
+        enc = default if e is None or (isinstance(e, ast.Constant) and e.value is None) else (const_str(e) or src(e))
+        err = "strict" if r is None or (isinstance(r, ast.Constant) and r.value is None) else (const_str(r) or src(r))
+        return (enc.lower().replace("_", "-") if isinstance(enc, str) else enc, err)
+
+    encs = []
+
+    def trunc_handle(e, depth=0):
+        """does expression e denote a file object opened on the path with truncation?  returns (is_handle, truncates, on_path)"""
+        if isinstance(e, ast.Name) and depth < 4:
+            for w in ast.walk(fn):
+                if isinstance(w, (ast.With, ast.AsyncWith)):
+                    for it in w.items:
+                        if it.optional_vars is not None and src(it.optional_vars) == e.id:
+                            return trunc_handle(it.context_expr, depth + 1)
+            d = defs_of(fn, e.id)
+            if len(d) == 1:
+                return trunc_handle(d[0], depth + 1)
+            return (False, False, False)
+        if isinstance(e, ast.Call):
+            cn = call_name(e)
+            if cn == "open" and isinstance(e.func, ast.Name):
+                mode = arg(e, 1, "mode")
+                m = const_str(mode) if mode is not None else "r"
+                encs.append(enc_of(e, 3, None) if "b" not in (m or "") else ("bytes", "strict"))
+                return (True, bool(m) and m[0] in "wx", bool(e.args) and is_path(e.args[0]))
+            if cn == "open" and isinstance(e.func, ast.Attribute) and src(e.func.value) not in ("os", "io", "codecs"):
+                mode = arg(e, 0, "mode")
+                m = const_str(mode) if mode is not None else "r"
+                encs.append(enc_of(e, 2, None) if "b" not in (m or "") else ("bytes", "strict"))
+                return (True, bool(m) and m[0] in "wx", is_path(e.func.value))
+            if cn == "fdopen" and e.args:
+                inner = e.args[0]
+                if isinstance(inner, ast.Name):
+                    d = defs_of(fn, inner.id)
+                    inner = d[0] if len(d) == 1 else inner
+                if isinstance(inner, ast.Call) and src(inner.func) == "os.open" and len(inner.args) >= 2:
+                    flags = {src(x) for x in ast.walk(inner.args[1]) if isinstance(x, ast.Attribute)}
+                    mode = arg(e, 1, "mode")
+                    m = const_str(mode) if mode is not None else "r"
+                    encs.append(enc_of(e, 3, None) if "b" not in (m or "") else ("bytes", "strict"))
+                    return (True, "os.O_TRUNC" in flags and bool(m) and m[0] == "w", is_path(inner.args[0]))
+                return (True, False, False)
+        return (False, False, False)
+
+    writes = []      # (form, on_path, truncates)
+    for c in ast.walk(fn):
+        if not isinstance(c, ast.Call):
+            continue
+        cn = call_name(c)
+        if cn == "dump" and c.args:
+            a = c.args[0]
+            if is_path(a):
+                writes.append(("dump(path)", True, True))
+                encs.append(enc_of(c, 1, "utf-8"))
+            else:
+                h, t, p = trunc_handle(a)
+                writes.append(("dump(handle)", p, t) if h else ("dump(?)", False, False))
+                if h and arg(c, 1, "encoding") is not None:
+                    encs.append(enc_of(c, 1, None))
+        elif cn in ("write", "writelines") and isinstance(c.func, ast.Attribute):
+            h, t, p = trunc_handle(c.func.value)
+            if h:
+                writes.append((f"{cn}(handle)", p, t))
+        elif cn in ("write_text", "write_bytes") and isinstance(c.func, ast.Attribute):
+            writes.append((cn, is_path(c.func.value), True))
+            encs.append(enc_of(c, 1, None) if cn == "write_text" else ("bytes", "strict"))
+    one = len(writes) == 1
+    col.add(rule, cp.short, details[0], tmpl_ok and rend_ok and one and writes[0][1] and not caches,
+            f"must render {env}.get_template({tf}) with {info} into {fdir}/{tf} - one write, no template cache keyed by file name (r5, r7 and r21 share names); "
+            f"found get_template ok={tmpl_ok}, render ok={rend_ok}, writes={writes}, lookups={len(caches)}", cp.loc)
+    col.add(rule, cp.short, details[1], one and writes[0][2],
+            f"the output file must be opened truncating: a shorter file written over a longer one from an earlier query into the same directory keeps the old tail (writes={writes})",
+            cp.loc)
+    if len(details) > 2 and details[2]:
+        # text is encoded explicitly by .encode(...) when a bytes sink is used
+        for c in ast.walk(fn):
+            if isinstance(c, ast.Call) and call_name(c) == "encode":
+                encs.append(enc_of(c, 0, "utf-8"))
+        good = [e for e in encs if e[0] in ("utf-8", "utf8") and e[1] == "strict"]
+        other = [e for e in encs if e not in good and e[0] != "bytes"]
+        col.add(rule, cp.short, details[2], bool(good) and not other,
+                "string literals pass characters above U+007F through unescaped, so the file must be written as UTF-8 (explicitly: the default of open() "
+                f"depends on the locale) with errors='strict' - another codec or error handler changes the bytes the compiler sees (found {encs})", cp.loc)
+
+
+# ---------------------------------------------------------------------------------------------------------------
+# one-level inlining of helper calls (same-package module functions) into a statement list, with parameters
+# replaced by the argument expressions - so that rules written for the in-line form also decide the factored form
+def inline_helper_calls(repo, func, stmts, depth: int = 2):
+    import copy as _copy
+    out = []
+    for st in stmts:
+        call = st.value if isinstance(st, (ast.Expr, ast.Assign)) and isinstance(getattr(st, "value", None), ast.Call) else None
+        tgt = None
+        if call is not None and isinstance(call.func, ast.Name) and depth > 0:
+            cands = [g for g in repo.resolve_call(func, call) if g.module.name.startswith("func_adl_xAOD") and g.cls is None and g.parent is None]
+            if len(cands) == 1:
+                tgt = cands[0]
+        if tgt is None or tgt.node.args.vararg or tgt.node.args.kwarg:
+            out.append(st)
+            continue
+        params = [a.arg for a in tgt.node.args.args]
+        binding = {}
+        for i, a in enumerate(call.args):
+            if i < len(params):
+                binding[params[i]] = a
+        for k in call.keywords:
+            if k.arg in params:
+                binding[k.arg] = k.value
+        dflt = tgt.node.args.defaults
+        for p, d in zip(params[len(params) - len(dflt):], dflt):
+            binding.setdefault(p, d)
+        if set(params) - set(binding):
+            out.append(st)
+            continue
+        # parameters that are re-assigned in the helper cannot be substituted
+        stored = {n.id for n in ast.walk(tgt.node) if isinstance(n, ast.Name) and isinstance(n.ctx, ast.Store)}
+        if stored & set(params):
+            out.append(st)
+            continue
+
+        class Sub(ast.NodeTransformer):
+            def visit_Name(self, n):
+                if n.id in binding and isinstance(n.ctx, ast.Load):
+                    return ast.copy_location(_copy.deepcopy(binding[n.id]), n)
+                return n
+        body = [s for s in tgt.node.body if not (isinstance(s, ast.Expr) and isinstance(s.value, ast.Constant))]
+        new = [ast.fix_missing_locations(Sub().visit(_copy.deepcopy(s))) for s in body]
+        for s in new:
+            for x in ast.walk(s):
+                x._inlined_from = tgt
+        out.extend(inline_helper_calls(repo, tgt, new, depth - 1))
+    return out
+
+
+def literal_str_collection(repo, module, scope_stmts, e, notes: List[str], depth: int = 0):
+    """set of string constants a membership-test operand denotes: literals, names bound (locally in scope_stmts or at module
+    level) to such, concatenations/unions, copies; in-place growth of a module-level list through an alias is noted."""
+    if depth > 6:
+        raise AnalysisError("key list expression too deep")
+    if isinstance(e, (ast.List, ast.Tuple, ast.Set)):
+        if not all(isinstance(x, ast.Constant) and isinstance(x.value, str) for x in e.elts):
+            raise AnalysisError(f"key list has non-literal entries: {src(e)[:80]}")
+        return {x.value for x in e.elts}
+    if isinstance(e, ast.BinOp) and isinstance(e.op, (ast.Add, ast.BitOr)):
+        return literal_str_collection(repo, module, scope_stmts, e.left, notes, depth + 1) | literal_str_collection(repo, module, scope_stmts, e.right, notes, depth + 1)
+    if isinstance(e, ast.Call) and call_name(e) in ("list", "set", "tuple", "frozenset", "sorted", "copy") and (e.args or isinstance(e.func, ast.Attribute)):
+        inner = e.args[0] if e.args else e.func.value
+        return literal_str_collection(repo, module, scope_stmts, inner, notes, depth + 1)
+    if isinstance(e, ast.Subscript) and isinstance(e.slice, ast.Slice) and e.slice.lower is None and e.slice.upper is None:
+        return literal_str_collection(repo, module, scope_stmts, e.value, notes, depth + 1)
+    if isinstance(e, ast.Starred):
+        return literal_str_collection(repo, module, scope_stmts, e.value, notes, depth + 1)
+    if isinstance(e, ast.Name):
+        local_defs, grows = [], []
+        for st in scope_stmts:
+            for n in ast.walk(st):
+                if isinstance(n, ast.Assign) and any(isinstance(t, ast.Name) and t.id == e.id for t in n.targets):
+                    local_defs.append(n.value)
+                if isinstance(n, ast.AugAssign) and isinstance(n.target, ast.Name) and n.target.id == e.id:
+                    grows.append(n.value)
+                if isinstance(n, ast.Call) and call_name(n) in ("extend", "append", "update", "add") and isinstance(n.func, ast.Attribute) \
+                        and isinstance(n.func.value, ast.Name) and n.func.value.id == e.id and n.args:
+                    grows.append(n.args[0] if call_name(n) in ("extend", "update") else ast.List(elts=[n.args[0]], ctx=ast.Load()))
+        out = set()
+        if local_defs:
+            for d in local_defs:
+                if isinstance(d, ast.Name) and d.id != e.id:
+                    # alias of another (module-level?) collection: in-place growth through the alias changes it for later calls
+                    if grows and any(isinstance(n, ast.Assign) and any(isinstance(t, ast.Name) and t.id == d.id for t in n.targets) for n in module.tree.body):
+                        notes.append(f"module-level `{d.id}` is grown in place through the alias `{e.id}`: the allowed keys then include whatever "
+                                     "EARLIER declarations (of any backend) added")
+                out |= literal_str_collection(repo, module, [s for s in scope_stmts], d, notes, depth + 1) if not (isinstance(d, ast.Name) and d.id == e.id) else set()
+        else:
+            mod_defs = [n.value for n in module.tree.body if isinstance(n, ast.Assign) and any(isinstance(t, ast.Name) and t.id == e.id for t in n.targets)]
+            mod_defs += [n.value for n in module.tree.body if isinstance(n, ast.AnnAssign) and isinstance(n.target, ast.Name) and n.target.id == e.id and n.value is not None]
+            if len(mod_defs) != 1:
+                raise AnalysisError(f"key list name {e.id} has {len(mod_defs)} definitions")
+            if grows:
+                notes.append(f"module-level `{e.id}` is grown in place: the allowed keys then depend on earlier declarations")
+            out |= literal_str_collection(repo, module, [], mod_defs[0], notes, depth + 1)
+        for g in grows:
+            out |= literal_str_collection(repo, module, scope_stmts, g, notes, depth + 1)
+        return out
+    raise AnalysisError(f"key list expression not understood: {src(e)[:80]}")
+
+
+# ---------------------------------------------------------------------------------------------------------------
+# translation-time code keeps no state on the nodes of the query: the only attributes it may set on an object it did
+# not create itself are node.rep / node.scope in crep.set_rep (whose validity is re-tested on every use).  A flag left
+# on a (user-owned, re-usable) AST node outlives the generated_code object it referred to.
+def check_no_state_on_query_nodes(col, rule: str, repo: Repo):
+    tr = repo.mod("common.ast_to_cpp_translator")
+    funcs = list(tr.all_funcs) + [repo.function("process_ast_node")]
+    n_sites = 0
+    bad = []
+    for f in funcs:
+        if isinstance(f.node, ast.Lambda):
+            continue
+        selfn = f.node.args.args[0].arg if f.cls is not None and f.node.args.args else None
+        for n in walk_no_nested(f.node):
+            base = None
+            if isinstance(n, ast.Attribute) and isinstance(n.ctx, (ast.Store, ast.Del)):
+                base = n.value
+            elif isinstance(n, ast.Call) and call_name(n) in ("setattr", "delattr") and n.args:
+                base = n.args[0]
+            if base is None:
+                continue
+            n_sites += 1
+            root = base
+            while isinstance(root, (ast.Attribute, ast.Subscript)):
+                root = root.value
+            if isinstance(root, ast.Name) and root.id == selfn:
+                continue
+            fresh = False
+            if isinstance(base, ast.Name):
+                ds = defs_of(f.node, base.id)
+                fresh = bool(ds) and all(isinstance(d, ast.Call) and (repo.classes_named(call_name(d)) or call_name(d) in ("copy", "deepcopy")) for d in ds)
+            if not fresh:
+                bad.append(f"{f.short}:{src(n)[:50]} (line {n.lineno})")
+    sr = repo.function("set_rep")
+    stores = sorted(src(n) for n in ast.walk(sr.node) if isinstance(n, ast.Attribute) and isinstance(n.ctx, ast.Store))
+    col.info["attribute_store_sites_in_translation_code"] = n_sites
+    col.add(rule, "translation-code", "no-state-left-on-query-nodes", not bad,
+            f"translation-time code sets attributes on objects it did not create: {bad}; such a flag survives on the query's nodes (which the caller may "
+            "translate again, write again, or share between call sites) after the generated_code it referred to is gone", tr.rel)
+    col.add(rule, "set_rep", "only-rep-and-scope-are-cached-on-nodes", stores == ["node.rep", "node.scope"],
+            f"set_rep stores {stores}; the cached pair is validated against the live scope on every use", sr.loc)
+
+
+SURGERY_CALLS = {"replace", "strip", "lstrip", "rstrip", "partition", "rpartition", "split", "rsplit", "splitlines", "sub", "subn", "translate",
+                 "removeprefix", "removesuffix", "lower", "upper", "title", "casefold", "expandtabs", "zfill", "center", "ljust", "rjust", "encode", "decode"}
+
+
+def string_surgery(node, allow=()) -> List[str]:
+    """constructs that cut, trim or rewrite text (slices, replace/strip/split/partition/re.sub, ...) inside `node`"""
+    out = []
+    for n in ast.walk(node):
+        if isinstance(n, ast.Subscript) and isinstance(n.slice, ast.Slice):
+            out.append(src(n))
+        elif isinstance(n, ast.Call) and isinstance(n.func, ast.Attribute) and n.func.attr in SURGERY_CALLS and n.func.attr not in allow:
+            out.append(src(n)[:60])
+    return out
+
+
+# ---------------------------------------------------------------------------------------------------------------
+# cpp_string_literal: which code points take the generic (octal) escape.  The branch test is a boolean combination of
+# comparisons of ord(<char>) with integer constants; it is evaluated over the finite partition of the code-point line
+# that those constants induce (an abstract domain of intervals with the test's own constants as end points).
+def check_escaper_ranges(col, rule: str, repo: Repo):
+    esc = repo.function("cpp_string_literal")
+    fn = esc.node
+    loops = [n for n in walk_no_nested(fn) if isinstance(n, ast.For)]
+    if len(loops) != 1 or not isinstance(loops[0].target, ast.Name):
+        col.defer("cpp_string_literal is not one loop over the characters: the escape-range rule cannot be decided on this shape")
+        return
+    ch = loops[0].target.id
+    branch = None
+    for n in ast.walk(loops[0]):
+        if isinstance(n, ast.If) and any(isinstance(j, ast.JoinedStr) and any(isinstance(v, ast.FormattedValue) and v.format_spec is not None for v in j.values)
+                                         for s in n.body for j in ast.walk(s)):
+            branch = n
+    if branch is None:
+        col.defer("cpp_string_literal: branch producing the numeric escape not found: the escape-range rule cannot be decided on this shape")
+        return
+    consts = set()
+
+    def ev(t, cp):
+        if isinstance(t, ast.BoolOp):
+            vals = [ev(v, cp) for v in t.values]
+            return all(vals) if isinstance(t.op, ast.And) else any(vals)
+        if isinstance(t, ast.UnaryOp) and isinstance(t.op, ast.Not):
+            return not ev(t.operand, cp)
+        if isinstance(t, ast.Compare):
+            items = [t.left] + list(t.comparators)
+            vals = []
+            for it in items:
+                if isinstance(it, ast.Call) and call_name(it) == "ord" and src(it.args[0]) == ch:
+                    vals.append(cp)
+                elif isinstance(it, ast.Constant) and isinstance(it.value, int):
+                    vals.append(it.value)
+                elif isinstance(it, ast.Constant) and isinstance(it.value, str) and len(it.value) == 1:
+                    vals.append(("chr", ord(it.value)))
+                elif isinstance(it, ast.Name) and it.id == ch:
+                    vals.append(("chr", cp))
+                else:
+                    raise AnalysisError(f"cpp_string_literal: escape test operand {src(it)} not understood")
+            vals = [v[1] if isinstance(v, tuple) else v for v in vals]
+            res = True
+            for a, op, b in zip(vals, t.ops, vals[1:]):
+                res = res and {ast.Lt: a < b, ast.LtE: a <= b, ast.Gt: a > b, ast.GtE: a >= b, ast.Eq: a == b, ast.NotEq: a != b}[type(op)]
+            return res
+        raise AnalysisError(f"cpp_string_literal: escape test {src(t)} not understood")
+
+    for c in ast.walk(branch.test):
+        if isinstance(c, ast.Constant) and isinstance(c.value, int):
+            consts.add(c.value)
+        if isinstance(c, ast.Constant) and isinstance(c.value, str) and len(c.value) == 1:
+            consts.add(ord(c.value))
+    # representative points: every constant, its neighbours, and the ends of the code-point line
+    pts = sorted({p for c in consts for p in (c - 1, c, c + 1) if 0 <= p <= 0x10FFFF} | {0, 0x1F, 0x20, 0x7E, 0x7F, 0x80, 0xFF, 0x100, 0x1FF, 0x200, 0xFFFF, 0x10FFFF})
+    try:
+        taken = [p for p in pts if ev(branch.test, p)]
+    except AnalysisError as e:
+        col.defer(str(e))
+        return
+    table_keys = set()
+    for n in walk_no_nested(fn):
+        if isinstance(n, ast.Assign) and isinstance(n.value, ast.Dict):
+            for k in n.value.keys:
+                try:
+                    table_keys.add(ord(ast.literal_eval(k)))
+                except Exception:
+                    pass
+    ctl_missing = [p for p in pts if (p < 0x20 or p == 0x7F) and p not in taken and p not in table_keys]
+    beyond = [p for p in taken if p > 0x7F]
+    col.info["escape_test_partition_points"] = len(pts)
+    col.add(rule, esc.short, "numeric-escape-for-control-characters-only", not ctl_missing and not beyond,
+            f"the three-digit octal escape is taken for code points {[hex(p) for p in taken]} of the partition {len(pts)} points; it must cover every control "
+            f"character (missing {[hex(p) for p in ctl_missing]}) and nothing above U+007F (taken above: {[hex(p) for p in beyond][:6]}): an octal escape names "
+            "ONE BYTE, so a character above U+007F escaped that way reaches C++ as a different string (columns and trees are then booked under another name)",
+            f"{esc.module.rel}:{branch.lineno}")
+
+
+# ---------------------------------------------------------------------------------------------------------------
+# every call site gets its OWN code value: each function that installs `<call>.func = <value>` builds that value by
+# calling the CPPCodeValue constructor in this very invocation (the value carries per-call-site facts: the receiver's
+# name, the bank literal's position) - a value remembered on the specification or the coder is shared by all call sites.
+def check_code_value_per_call_site(col, rule: str, repo: Repo, floor: int = 3):
+    n_sites = 0
+    for f in repo.all_functions():
+        if isinstance(f.node, ast.Lambda):
+            continue
+        for n in walk_no_nested(f.node):
+            if isinstance(n, ast.Assign) and len(n.targets) == 1 and isinstance(n.targets[0], ast.Attribute) and n.targets[0].attr == "func" \
+                    and isinstance(n.targets[0].value, ast.Name) and n.targets[0].value.id in [a.arg for a in f.node.args.args]:
+                v = n.value
+                if isinstance(v, ast.Call) and call_name(v) == "cast" and len(v.args) == 2:
+                    v = v.args[1]
+                if not isinstance(v, ast.Name):
+                    continue
+                ds = defs_of(f.node, v.id)
+                if not any(isinstance(d, ast.Call) and call_name(d) == "CPPCodeValue" for d in ds):
+                    continue
+                n_sites += 1
+                fresh = all(isinstance(d, ast.Call) and call_name(d) == "CPPCodeValue" and not d.args for d in ds)
+                col.add(rule, f.short, "code-value-constructed-for-this-call-site", fresh,
+                        f"`{src(n)}`: {v.id} comes from {[src(d)[:40] for d in ds]}; every definition must be a new CPPCodeValue() - one kept on the "
+                        "specification/coder is shared by every call site and the last call site visited decides its receiver name and arguments",
+                        f"{f.module.rel}:{n.lineno}")
+    if n_sites < floor:
+        raise AnalysisError(f"{rule}: only {n_sites} functions installing a CPPCodeValue as a call's func were found (at least {floor} confirmed by hand)")
+
+
+# ---------------------------------------------------------------------------------------------------------------
+# every C++ variable a handler introduces is declared: a local bound to crep.cpp_variable(...)/cpp_collection(...) must
+# be handed to declare_variable / declare_class_variable (directly, or re-wrapped as cpp_variable(<it>.as_cpp(), ...))
+# under no more conditions than its creation.  The name is used by the statements the handler emits afterwards.
+def check_created_variables_declared(col, rule: str, repo: Repo, floor: int = 8):
+    from sa.core.paths import guards, parent_map
+    tr = repo.mod("common.ast_to_cpp_translator")
+    n = 0
+    for f in tr.all_funcs:
+        if isinstance(f.node, ast.Lambda):
+            continue
+        pm = None
+        for a in walk_no_nested(f.node):
+            if not (isinstance(a, ast.Assign) and len(a.targets) == 1 and isinstance(a.targets[0], ast.Name) and isinstance(a.value, ast.Call)
+                    and call_name(a.value) in ("cpp_variable", "cpp_collection")):
+                continue
+            name = a.targets[0].id
+            pm = pm or parent_map(f.node)
+            n += 1
+            decls = []
+            for c in walk_no_nested(f.node):
+                if isinstance(c, ast.Call) and call_name(c) in ("declare_variable", "declare_class_variable") and c.args:
+                    x = c.args[0]
+                    if isinstance(x, ast.Name) and x.id == name:
+                        decls.append(c)
+                    elif isinstance(x, ast.Call) and call_name(x) == "cpp_variable" and x.args and src(x.args[0]) == f"{name}.as_cpp()":
+                        decls.append(c)
+            asserts = {id(x.test) for x in ast.walk(f.node) if isinstance(x, ast.Assert)}
+            g_create = {(src(t), tr_) for t, tr_ in guards(f.node, a, pm) if id(t) not in asserts}
+            ok = any({(src(t), tr_) for t, tr_ in guards(f.node, c, pm) if id(t) not in asserts} <= g_create and c.lineno > a.lineno for c in decls)
+            col.add(rule, f.short, f"created-variable-is-declared:{name}", ok,
+                    f"`{name} = {call_name(a.value)}(...)` introduces a C++ identifier that the emitted statements use; it must be passed to declare_variable "
+                    f"(found {len(decls)} declaration call(s) for it, conditions compared with its creation)", f"{f.module.rel}:{a.lineno}")
+    if n < floor:
+        raise AnalysisError(f"{rule}: only {n} created C++ variables found in the translator (at least {floor} confirmed by hand)")
+
+
+# ---------------------------------------------------------------------------------------------------------------
+# the emission pipeline: what the handlers put into generated_code reaches the template variables.
+FORWARDERS = [
+    # class, method, field, callee, returns-its-value
+    ("query_ast_visitor", "emit_query", "_gc", "emit_query_code", False),
+    ("query_ast_visitor", "emit_book", "_gc", "emit_book_code", False),
+    ("query_ast_visitor", "class_declaration_code", "_gc", "class_declaration_code", True),
+    ("query_ast_visitor", "include_files", "_gc", "include_files", True),
+    ("query_ast_visitor", "link_libraries", "_gc", "link_libraries", True),
+    ("generated_code", "emit_query_code", "_block", "emit", False),
+    ("generated_code", "emit_book_code", "_book_block", "emit", False),
+]
+
+
+def check_emission_pipeline(col, rule: str, repo: Repo):
+    for cname, mname, fld, callee, returns in FORWARDERS:
+        f = repo.method(cname, mname)
+        params = [a.arg for a in f.node.args.args[1:]]
+        body = [s for s in f.node.body if not (isinstance(s, ast.Expr) and isinstance(s.value, ast.Constant))]
+        calls = [c for c in walk_no_nested(f.node) if isinstance(c, ast.Call) and isinstance(c.func, ast.Attribute) and c.func.attr == callee
+                 and src(c.func.value) == f"self.{fld}"]
+        ok = len(calls) == 1 and [src(a) for a in calls[0].args] == params
+        if ok:
+            from sa.core.paths import guards, parent_map
+            ok = not [t for t, _ in guards(f.node, calls[0], parent_map(f.node)) if not isinstance(t, ast.Constant)]
+        if ok and returns:
+            rets = [r for r in walk_no_nested(f.node) if isinstance(r, ast.Return)]
+            ok = len(rets) == 1 and (rets[0].value is calls[0] or (isinstance(rets[0].value, ast.Name) and any(d is calls[0] for d in defs_of(f.node, rets[0].value.id))))
+        col.add(rule, f.short, f"forwards-to:{fld}.{callee}", ok,
+                f"{cname}.{mname} must hand {'back ' if returns else ''}self.{fld}.{callee}({', '.join(params)}) unconditionally: it is the only way the "
+                "statements collected during translation reach the rendered files", f.loc)
+    wf = repo.method("executor", "write_cpp_files", hint="common.executor")
+    fn = wf.node
+    items = {}
+    for n in walk_no_nested(fn):
+        if isinstance(n, ast.Assign) and isinstance(n.targets[0], ast.Subscript) and src(n.targets[0].value) == "info":
+            from sa.core.pyfacts import const_str as _cs
+            items[_cs(n.targets[0].slice)] = n.value
+    vis = [n.targets[0].id for n in walk_no_nested(fn) if isinstance(n, ast.Assign) and isinstance(n.value, ast.Call) and call_name(n.value) == "get_visitor_obj"
+           and isinstance(n.targets[0], ast.Name)]
+    qv = vis[0] if len(vis) == 1 else None
+    for key, via in (("query_code", "emit_query"), ("book_code", "emit_book")):
+        v = items.get(key)
+        ok = False
+        if qv and isinstance(v, ast.Call) and call_name(v) == "lines_of_query_code" and isinstance(v.func.value, ast.Name):
+            em = v.func.value.id
+            fed = [c for c in walk_no_nested(fn) if isinstance(c, ast.Call) and isinstance(c.func, ast.Attribute) and src(c.func.value) == qv
+                   and [src(a) for a in c.args] == [em]]
+            made = defs_of(fn, em)
+            ok = len(fed) == 1 and fed[0].func.attr == via and fed[0].lineno < v.lineno and len(made) == 1 and isinstance(made[0], ast.Call) and not made[0].args
+        col.add(rule, wf.short, f"info[{key}]<-{via}", ok,
+                f"info['{key}'] must be the lines of a new emitter that was filled by {qv}.{via}(<that emitter>) (found {src(v) if v is not None else None})", wf.loc)
+    v = items.get("class_decl")
+    ok = qv is not None and v is not None and src(resolve_name(fn, v)) == f"{qv}.class_declaration_code()"
+    col.add(rule, wf.short, "info[class_decl]<-class_declaration_code", ok,
+            f"info['class_decl'] must be {qv}.class_declaration_code() (found {src(v) if v is not None else None})", wf.loc)
+
+
+def is_plain_terminal(e, tname: str) -> bool:
+    """ctyp.terminal("<tname>") with no indirection, constness or tree type: every further argument is a falsy constant"""
+    if not (isinstance(e, ast.Call) and call_name(e) == "terminal" and e.args and isinstance(e.args[0], ast.Constant) and e.args[0].value == tname):
+        return False
+    rest = list(e.args[1:]) + [k.value for k in e.keywords]
+    return all(isinstance(a, ast.Constant) and not a.value for a in rest)
